@@ -307,7 +307,9 @@ class LinearStateSpace:
         n = self.n
 
         if num_const > 0:
-            μ = solve(np.eye(n-num_const) - A22, A21)
+            # the constant states keep their initial values
+            μ = solve(np.eye(n-num_const) - A22,
+                      A21 @ self.mu_0[sorted_idx[:num_const]])
         else:
             μ = solve(np.eye(n-num_const) - A22, np.zeros((n, 1)))
         Σ = solve_discrete_lyapunov(A22, CC2, method='bartels-stewart')
